@@ -1039,11 +1039,13 @@ def run(chk: Check):
         _traces(chk, 1600, 4)
     else:
         _tables(chk, "depth2", _split(ALL_CONS, 13), ["U8"], ALL_LEAVES, ALL_CONS, 2, 3, 6)
-        small = ["U8", "BG", "CS", "Null"]
-        cons3 = ["CollP", "CollG", "OptP", "IfP", "TBP", "TBGe", "TBTe", "LenSw", "FlagSw", "TupA", "TmplFlag", "TmplCtx"]
+        small = ["U8", "U16", "BG", "CS", "Null", "BA8"]
+        cons3 = ["CollP", "CollG", "CollF", "OptP", "IfP", "TBP", "TBGe", "TBTe", "TBF", "LenSw", "EnumSw", "FlagSw", "TupA",
+                 "TmplFlag", "TmplSkip", "TmplCtx"]
         _tables(chk, "depth3-kernel", _split(ALL_CONS, 13), ["U8"], small, cons3, 3, 3, 5)
-        _traces(chk, 30000, 4)
-        _traces(chk, 6000, 5)
+        _traces(chk, 60000, 4, shards=16)
+        _traces(chk, 15000, 5, shards=16)
+        _traces(chk, 5000, 6, shards=16)
     chk.cov["exhaustive"] = True
 
 
